@@ -213,7 +213,11 @@ def account_nonempty(P, R, writers, rule='C05.GRD.7'):
             for x in walk(c) if c is not None else ():
                 if isinstance(x, dict) and x.get('k') == 'bin' and x.get('op') in ('!=', '=='):
                     for a, o in ((x.get('l'), x.get('r')), (x.get('r'), x.get('l'))):
-                        if isinstance(a, dict) and a.get('k') in ('idx', 'un') and root_var(a) is not None and is_var(root_var(a), src) and isinstance(const_of(o), int):
+                        rv_ = root_var(a) if isinstance(a, dict) and a.get('k') in ('idx', 'un') else None
+                        # the text parameter itself, or a cursor that starts at it (`const char *src = account;`)
+                        from_text = rv_ is not None and (is_var(rv_, src) or (rv_.get('sc') == 'local' and any(
+                            is_var((d_.ev.get('rhs') if d_.ev['k'] == 'store' else d_.ev.get('init')) or {}, src) for d_ in setter.local_defs(rv_['name']))))
+                        if from_text and isinstance(const_of(o), int):
                             terms.add(const_of(o))
         if not terms:
             raise AnalysisBroken('the account setter %s has no recognisable terminator test' % setter.name)
